@@ -46,6 +46,9 @@ thread_local! {
 
 /// Installs a panic hook that records the message and location of panics raised inside
 /// [`guarded`] sections instead of printing them. Panics elsewhere are printed as usual.
+/// First panic raised outside a [`guarded`] section (any thread): message @ file:line.
+pub static UNGUARDED_PANIC: std::sync::Mutex<Option<String>> = std::sync::Mutex::new(None);
+
 pub fn install_panic_hook() {
     let default = std::panic::take_hook();
     std::panic::set_hook(Box::new(move |info| {
@@ -61,6 +64,19 @@ pub fn install_panic_hook() {
             let loc = info.location().map(|l| format!("{}:{}", l.file(), l.line())).unwrap_or_default();
             LAST_PANIC.with(|p| *p.borrow_mut() = Some(format!("{msg} @ {loc}")));
         } else {
+            let msg = if let Some(s) = info.payload().downcast_ref::<&str>() {
+                s.to_string()
+            } else if let Some(s) = info.payload().downcast_ref::<String>() {
+                s.clone()
+            } else {
+                "<non-string panic>".to_string()
+            };
+            let loc = info.location().map(|l| format!("{}:{}", l.file(), l.line())).unwrap_or_default();
+            if let Ok(mut g) = UNGUARDED_PANIC.lock() {
+                if g.is_none() {
+                    *g = Some(format!("{msg} @ {loc}"));
+                }
+            }
             default(info);
         }
     }));
